@@ -9,7 +9,7 @@ for d in sorted(glob.glob('/verif/seeded/*/')):
     if not os.path.exists(log):
         continue
     txt = open(log).read()
-    hits = sorted(set(re.findall(r'^  \S+: (C\d\d\.\d+\|[^:]*?)(?:\|#\d+)?: ', txt, re.M)))
+    hits = sorted(set(re.findall(r'^  \S+: (C\d\d\.\d+\|.*?)(?:\|#\d+)?: ', txt, re.M)))
     errs = len(re.findall(r'^CHECKER-ERROR', txt, re.M))
     mp = os.path.join(d, 'meta.json')
     meta = json.load(open(mp))
